@@ -28,6 +28,7 @@
 //! | error: conflicting descriptors | `Mode::Mutate` FieldDesc / MethodDesc: `accepted:descriptor-conflict:*` | **every** field / method of both classes of `wide`, either side overwritten |
 //! | error: conflicting parameter indices | `Mode::Mutate` ParamIndex: `accepted:parameter-index-conflict` | **every** parameter of `wide`, either side |
 //! | error: differing comments | `join_doc` → `must_err` `comment-conflict:<level>`: `accepted:comment-conflict:*` | q-deep (d1/d2), **deep-near-comments** and top comments: comments that differ only by a blank (`"d1"`/`"d1 "`/`" d1"`) still differ |
+//! | comments of any length and content (consequence of ∀ inputs): joined or refused, never a panic | `Mode::LongDocs` sweep `deep-long-comments`: at each of the 5 levels a comment of k = 0..=140 ASCII characters + a last character of 1/2/3/4 UTF-8 bytes, on A only / B only / equal / differing | 5 x 141 x 4 x 4 pairs |
 //! | error: differing first namespaces | `Mode::FirstNs`: `accepted:first-namespace` | B's header ∈ `FIRST_NS_VARIANTS` (**now also**: second namespaces equal, A's header swapped, first namespace differing only in case / by a repeated letter) × every pair of `wide` |
 //! | (consequence of ∀ inputs) the insertion order of the IndexMaps is part of the input | `order:*` | wide ×4 orders, wide3 ×6, pairs ×2 (quick) / ×4 (thorough) |
 //!
@@ -294,6 +295,47 @@ enum Mode {
 	/// the other side's entry under the same key (the only way such a conflict can exist, since
 	/// keys contain the descriptor / index)
 	Mutate,
+	/// long comments: at one level (mappings, class, field, method, parameter) a comment of `k` ASCII characters
+	/// followed by a character of 1, 2, 3 or 4 UTF-8 bytes, k = 0..=LONG_DOC_MAX, on A only / B only / equal on
+	/// both / differing on both (B's has one more character): whatever is done with a comment (compared, copied,
+	/// quoted in an error message) must not depend on where in it a multi-byte character lies
+	LongDocs,
+}
+
+const LONG_DOC_MAX: usize = 140;
+const LONG_DOC_TAILS: &[&str] = &["z", "\u{e9}", "\u{20ac}", "\u{1f600}"];
+const LONG_DOC_LEVELS: usize = 5;
+const LONG_DOC_RELATIONS: usize = 4;
+
+/// (level, k, tail, relation) of case `x` of `Mode::LongDocs`
+fn long_doc_case(x: u64) -> (usize, usize, usize, usize) {
+	let v = vcore::enumerate::product_nth(&[LONG_DOC_LEVELS, LONG_DOC_MAX + 1, LONG_DOC_TAILS.len(), LONG_DOC_RELATIONS], x);
+	(v[0], v[1], v[2], v[3])
+}
+
+fn set_doc_at(s: &mut MSet, level: usize, doc: Option<String>) {
+	if level == 0 {
+		s.doc = doc;
+		return;
+	}
+	let Some(c) = s.classes.values_mut().next() else { return };
+	match level {
+		1 => c.doc = doc,
+		2 => {
+			if let Some(f) = c.fields.values_mut().next() {
+				f.doc = doc;
+			}
+		},
+		_ => {
+			if let Some(m) = c.methods.values_mut().next() {
+				if level == 3 {
+					m.doc = doc;
+				} else if let Some(p) = m.params.values_mut().next() {
+					p.doc = doc;
+				}
+			}
+		},
+	}
 }
 
 /// namespaces of B whose first one differs from A's ("s", "a"): unrelated; A's first is B's second; B's
@@ -326,6 +368,7 @@ impl Sweep {
 			Mode::TopDocs => (self.top_docs.len() * self.top_docs.len()) as u64,
 			Mode::FirstNs => FIRST_NS_VARIANTS.len() as u64,
 			Mode::Mutate => self.muts.len() as u64,
+			Mode::LongDocs => (LONG_DOC_LEVELS * (LONG_DOC_MAX + 1) * LONG_DOC_TAILS.len() * LONG_DOC_RELATIONS) as u64,
 		}
 	}
 	fn cases(&self) -> u64 {
@@ -406,6 +449,7 @@ fn sweeps(tier: vcore::Tier) -> Vec<Sweep> {
 	// the same in both tiers (small)
 	v.push(sweep("wide3-rotated-orders", "wide3", simple(), simple(), Mode::Plain, six));
 	v.push(sweep("wide-top-comments", "wide", simple(), simple(), Mode::TopDocs, one));
+	v.push(sweep("deep-long-comments", "deep", simple(), simple(), Mode::LongDocs, one));
 	v.push(sweep("wide-first-namespace-differs", "wide", simple(), simple(), Mode::FirstNs, one));
 	v.push(sweep("wide-second-namespaces-equal", "wide", simple(), simple(), Mode::SecondNsEqual, one));
 	v.push(sweep("wide-stored-value-conflicts", "wide", simple(), simple(), Mode::Mutate, one));
@@ -980,6 +1024,18 @@ fn inputs(sw: &Sweep, ia: usize, ib: usize, x: u64) -> (MSet, MSet) {
 			b.ns = vec![n0.to_owned(), n1.to_owned()];
 		},
 		Mode::SecondNsEqual => b.ns = vec!["s".to_owned(), "a".to_owned()],
+		Mode::LongDocs => {
+			let (level, k, tail, relation) = long_doc_case(x);
+			let doc = format!("{}{}", "x".repeat(k), LONG_DOC_TAILS[tail]);
+			let (da, db) = match relation {
+				0 => (Some(doc), None),
+				1 => (None, Some(doc)),
+				2 => (Some(doc.clone()), Some(doc)),
+				_ => (Some(doc.clone()), Some(format!("{doc}{}", LONG_DOC_TAILS[tail]))),
+			};
+			set_doc_at(&mut a, level, da);
+			set_doc_at(&mut b, level, db);
+		},
 	}
 	(a, b)
 }
@@ -1087,6 +1143,9 @@ fn run_case(ctx: &Ctx, sw: &Sweep, ia: usize, ib: usize, x: u64, st: &mut Stats,
 						if sw.mode == Mode::FirstNs {
 							t.count(FIRST_NS_COUNTERS[x as usize]);
 						}
+						if sw.mode == Mode::LongDocs {
+							t.count("err:long-comments-differ");
+						}
 						st.sample(class, || json!({"kind": "stated-conflict", "class": class, "case": text(&what())}));
 					} else {
 						t.count("err:several-conflicts-at-once");
@@ -1112,6 +1171,9 @@ fn run_case(ctx: &Ctx, sw: &Sweep, ia: usize, ib: usize, x: u64, st: &mut Stats,
 					ctx.diff(k, w, || text(&format!("{}\nexpected:\n{}", what(), render(&expect.set))));
 				}
 				t.count("ok");
+				if sw.mode == Mode::LongDocs {
+					t.count("ok:long-comment-joined");
+				}
 				if !expect.may_err.is_empty() {
 					t.count("ok:parameter-first-name-on-one-side-kept");
 				}
@@ -1212,6 +1274,9 @@ fn main() {
 	ctx.floor("merged entries with the same comment on both sides", 100, total.get("merged-comment:equal-on-both-sides"));
 	ctx.floor("merged pairs where the insertion order is observable (more than one entry at a level)", 1000, total.get("order:pairs-with-more-than-one-entry-at-a-level"));
 	ctx.floor("order variants compared with the sorted order", 1000, total.get("order:variants-compared"));
+	let long_each = (LONG_DOC_LEVELS * (LONG_DOC_MAX + 1) * LONG_DOC_TAILS.len()) as u64;
+	ctx.floor("refusals of long comments that differ (every level x length x width of the last character)", long_each, total.get("err:long-comments-differ"));
+	ctx.floor("merges of long comments (one side only, equal on both)", 3 * long_each, total.get("ok:long-comment-joined"));
 
 	let coverage = json!({
 		"evaluations": total.evaluations,
